@@ -25,7 +25,7 @@ func (propC07) Rule() string {
 }
 func (propC07) Runs(tier string) int {
 	if tier == "thorough" {
-		return 600000
+		return 2000000
 	}
 	return 60000
 }
